@@ -38,7 +38,7 @@ def collHead (i : Dir) : List Instr → Prop
   | .collSel j _ :: _ => j = i.other
   | _ => False
 
-def okT_st : Instr → Prop
+def okT : Instr → Prop
   | .sendT _ t | .handle _ t => t.to ≠ .disabled
   | .collSel _ t => t.to ≠ .disabled ∧ t.to ≠ .established
   | _ => True
@@ -82,7 +82,7 @@ structure TF (x : F) (pr : Bool) (st : St) (i : Dir) (td : List Instr) : Prop wh
 
 /-- the continuation -/
 structure TG (pclosed pdone pO pI : Bool) (td : List Instr) : Prop where
-  okT_st : ∀ ins ∈ td, okT_st ins
+  okT : ∀ ins ∈ td, okT ins
   fin : Instr.finish ∈ td → pclosed = true ∧ finShape pO pI td
   pd : pdone = true → pclosed = true ∧ td = [] ∧ pO = false ∧ pI = false
   chain : chain td
@@ -96,7 +96,7 @@ structure SInv (s : PState) : Prop where
   me : ¬ (s.fo.pc = .run .established ∧ s.fi.pc = .run .established)
   hist : s.hist = some (if s.fo.inEst || s.fi.inEst then .up else .idle)
 
-attribute [local simp] toDis stopHead disHead sendEstHead collHead okT_st ok2 chain plain finShape
+attribute [local simp] toDis stopHead disHead sendEstHead collHead okT ok2 chain plain finShape
 
 theorem sinv_init (d p : Bool) : SInv (pInit d p) := by
   unfold pInit
@@ -253,7 +253,7 @@ theorem xf_iff (x : F) (pr : Bool) (st : St) : XF x pr st ↔
      (x.pc = .run .established → st = .established)) :=
   ⟨fun ⟨a, b, c, d, e, f⟩ => ⟨a, b, c, d, e, f⟩, fun ⟨a, b, c, d, e, f⟩ => ⟨a, b, c, d, e, f⟩⟩
 
-theorem fOnClose_ok_st {i : Dir} {x : F} {st : St} (hx : XF x true st) :
+theorem fOnClose_ok {i : Dir} {x : F} {st : St} (hx : XF x true st) :
     ∀ p ∈ fOnClose i x, FStepOK x st p.1 p.2 ∧ p.2.pc ≠ .run .established := by
   obtain ⟨pc, closed, conn, dialing, inEst, veto, inq⟩ := x
   obtain ⟨-, -, h3, h4, h5, h6⟩ := hx
@@ -267,7 +267,7 @@ theorem fOnClose_ok_st {i : Dir} {x : F} {st : St} (hx : XF x true st) :
   | run s0 =>
     cases s0 <;> cases inEst <;> simp_all [fOnClose, FStepOK, xf_iff, HStep, F.dropConn]
 
-theorem runOutcomes_ok_st {i : Dir} {x : F} {st : St} {s0 : St} (hx : XF x true st) (hp : x.pc = .run s0) :
+theorem runOutcomes_ok {i : Dir} {x : F} {st : St} {s0 : St} (hx : XF x true st) (hp : x.pc = .run s0) :
     ∀ p ∈ runOutcomes i x s0, FStepOK x st p.1 p.2 ∧ ¬ toDis p.2.pc := by
   obtain ⟨pc, closed, conn, dialing, inEst, veto, inq⟩ := x
   obtain ⟨-, -, h3, h4, h5, h6⟩ := hx
@@ -298,10 +298,10 @@ theorem runOutcomes_ok_st {i : Dir} {x : F} {st : St} {s0 : St} (hx : XF x true 
 
 /-! ## one FSM moves, the continuation does not -/
 
-theorem applyCb_eq_st (l : Label) (s : PState) : applyCb l s = { s with hist := (applyCb l s).hist } := by
+theorem applyCb_eq (l : Label) (s : PState) : applyCb l s = { s with hist := (applyCb l s).hist } := by
   cases l <;> rfl
 
-theorem hist_step_st {l : Label} {a b o : Bool} {s : PState} (hs : HStep l a b) (ha : a = true → o = false)
+theorem hist_step {l : Label} {a b o : Bool} {s : PState} (hs : HStep l a b) (ha : a = true → o = false)
     (hb : b = true → o = false) :
     (s.hist = some (if a || o then .up else .idle) → (applyCb l s).hist = some (if b || o then .up else .idle)) ∧
     (s.hist = some (if o || a then .up else .idle) → (applyCb l s).hist = some (if o || b then .up else .idle)) := by
@@ -310,7 +310,7 @@ theorem hist_step_st {l : Label} {a b o : Bool} {s : PState} (hs : HStep l a b) 
 theorem sinv_fstep {s : PState} (h : SInv s) (i : Dir) {y : F} {l : Label} (hp : s.present i = true)
     (hy : FStepOK (s.f i) (s.st i) l y) (hd : toDis y.pc → stopHead i s.todo) :
     SInv (applyCb l (s.setF i y)) := by
-  rw [applyCb_eq_st]
+  rw [applyCb_eq]
   obtain ⟨hx, hc, hs, hr⟩ := hy
   cases i
   · have hm : s.fo.pc = .run .established → s.fi.inEst = false := fun e => by
@@ -324,7 +324,7 @@ theorem sinv_fstep {s : PState} (h : SInv s) (i : Dir) {y : F} {l : Label} (hp :
       h.tn, h.tg, fun ⟨e1, e2⟩ => h.me ⟨hr e1, e2⟩, ?_⟩
     · show XF y s.presentO s.stO
       rw [hp]; exact hx
-    · exact (hist_step_st (s := s.setF .out y) hs (fun e => hm (h.xo.inEstRun e)) (fun e => hm (hr (hx.inEstRun e)))).1 h.hist
+    · exact (hist_step (s := s.setF .out y) hs (fun e => hm (h.xo.inEstRun e)) (fun e => hm (hr (hx.inEstRun e)))).1 h.hist
   · have hm : s.fi.pc = .run .established → s.fo.inEst = false := fun e => by
       have := h.me
       have h2 := h.xo.inEstRun
@@ -336,7 +336,7 @@ theorem sinv_fstep {s : PState} (h : SInv s) (i : Dir) {y : F} {l : Label} (hp :
       h.tg, fun ⟨e1, e2⟩ => h.me ⟨e1, hr e2⟩, ?_⟩
     · show XF y s.presentI s.stI
       rw [hp]; exact hx
-    · exact (hist_step_st (s := s.setF .inn y) hs (fun e => hm (h.xn.inEstRun e)) (fun e => hm (hr (hx.inEstRun e)))).2 h.hist
+    · exact (hist_step (s := s.setF .inn y) hs (fun e => hm (h.xn.inEstRun e)) (fun e => hm (hr (hx.inEstRun e)))).2 h.hist
 
 theorem SInv.x {s : PState} (h : SInv s) (i : Dir) : XF (s.f i) (s.present i) (s.st i) := by
   cases i
@@ -371,7 +371,7 @@ theorem sinv_fSteps {s s' : PState} {l : Label} (h : SInv s) (i : Dir) (hm : (l,
       have hp : s.present i = true := h.present_of_pc i (fun e => by rw [e] at hc; simp [FPc.listensClose] at hc)
       have hx := h.x i
       rw [hp] at hx
-      have := fOnClose_ok_st hx _ hy
+      have := fOnClose_ok hx _ hy
       exact sinv_fstep h i hp this.1 (fun _ => disHead_stopHead ((h.t i).closedH hc.1))
     · simp at hy
   · split at hy
@@ -379,7 +379,7 @@ theorem sinv_fSteps {s s' : PState} {l : Label} (h : SInv s) (i : Dir) (hm : (l,
       have hp : s.present i = true := h.present_of_pc i (fun e => by rw [e] at hpc; cases hpc)
       have hx := h.x i
       rw [hp] at hx
-      have := runOutcomes_ok_st hx hpc _ hy
+      have := runOutcomes_ok hx hpc _ hy
       exact sinv_fstep h i hp this.1 (fun e => absurd e this.2)
     · simp at hy
 
@@ -564,7 +564,7 @@ theorem sinv_handle {s : PState} (h : SInv s) {i : Dir} {t : Trans} {rest : List
   have hnf := not_fin_of_head htg (by simp) (by simp) (by simp)
   have hpd := not_pdone_of_todo htg
   have hok : t.to ≠ .disabled := by simpa using htg.okT _ (List.mem_cons_self ..)
-  have hokr : ∀ ins ∈ rest, okT_st ins := fun ins hi => htg.okT ins (List.mem_cons_of_mem _ hi)
+  have hokr : ∀ ins ∈ rest, okT ins := fun ins hi => htg.okT ins (List.mem_cons_of_mem _ hi)
   have hc := htg.chain
   have hto := h.to; have htn := h.tn
   rw [ht] at hto htn
@@ -802,7 +802,7 @@ theorem sinv_coll_kill {s : PState} (h : SInv s) {i : Dir} {t : Trans} {rest : L
     cases hh : (s.f i.other).inEst
     · rfl
     · exact absurd (hx.runSt (hx.inEstRun hh)) hst
-  obtain ⟨⟨hxy, hc, hs, hr⟩, hne⟩ := fOnClose_ok_st hx _ hy
+  obtain ⟨⟨hxy, hc, hs, hr⟩, hne⟩ := fOnClose_ok hx _ hy
   have hye : y.inEst = false := by
     cases hh : y.inEst
     · rfl
@@ -834,7 +834,7 @@ theorem sinv_coll_recv {s : PState} (h : SInv s) {i : Dir} {t ot : Trans} {rest 
   have hnf := not_fin_of_head htg (by simp) (by simp) (by simp)
   have hpd := not_pdone_of_todo htg
   have hok : t.to ≠ .disabled ∧ t.to ≠ .established := by simpa using htg.okT _ (List.mem_cons_self ..)
-  have hokr : ∀ ins ∈ rest, okT_st ins := fun ins hi => htg.okT ins (List.mem_cons_of_mem _ hi)
+  have hokr : ∀ ins ∈ rest, okT ins := fun ins hi => htg.okT ins (List.mem_cons_of_mem _ hi)
   split
   · refine sinv_todo' h1 (hto.quiet (by simp) (by simp) (by simp) (by simp)) (htn.quiet (by simp) (by simp) (by simp) (by simp))
       ⟨by simpa [hot] using hokr, fun e => absurd (by simpa using e) hnf, fun e => by (rw [hpd] at e; cases e),
